@@ -268,6 +268,36 @@ def most_common(umis):
     return best[0]
 
 
+def py_accepts(cfg, f, p):
+    """transcription of Model/C06.v `accepts` (= fragment.__eq__(molecule)) for a molecule consisting of the
+    fragments p (no overflow fragments); used for the maximality clause C06_greedy"""
+    rep = most_common([g['umi'] for g in p])
+    d = cfg['d']
+    ueq = f['umi'] == rep or (d != 0 and len(f['umi']) == len(rep) and hamming(f['umi'], rep) <= d)
+    last = p[-1]
+    if cfg['cls'] == 1 or (cfg['cls'] == 2 and cfg['r'] == 0):
+        return (f['strand'], str(f['contig']), f['site'], str(f['sample'])) == \
+               (last['strand'], str(last['contig']), last['site'], str(last['sample'])) and ueq
+    if cfg['cls'] == 2:
+        if (f['strand'], str(f['contig']), str(f['sample'])) != (last['strand'], str(last['contig']), str(last['sample'])):
+            return False
+        s = p[0]['site']
+        for g in p[1:]:
+            s = max(g['site'], s) if g['strand'] == 1 else min(g['site'], s)
+        if cfg['r'] > 0 and abs(f['site'] - s) > cfg['r']:
+            return False
+        return ueq
+    strand = 2
+    for g in p:
+        if g['strand'] != 2:
+            strand = g['strand']
+    if str(f['sample']) != str(p[0]['sample']) or f['strand'] != strand or str(f['contig']) != str(last['contig']):
+        return False
+    if min(abs(f['site'] - min(g['site'] for g in p)), abs(f['end'] - max(g['end'] for g in p))) > cfg['r']:
+        return False
+    return ueq
+
+
 def spec_violations(lib, res):
     """list of (key, text).  keys are stable identities of the violated clause."""
     cfg = lib['cfg']
@@ -342,6 +372,29 @@ def spec_violations(lib, res):
                     if min(abs(f['site'] - s), abs(f['end'] - e)) > cfg['r']:
                         out.append(('sound:radius', '%s: %s (span %d-%d) joined a molecule spanning %d-%d, radius %d'
                                     % (which, f['name'], f['site'], f['end'], s, e, cfg['r'])))
+        # cap (C06_cap)
+        if cfg['cap'] is not None:
+            for over, m in cm:
+                if len(m) > cfg['cap']:
+                    out.append(('cap', '%s: molecule %r has %d fragments, max_associated_fragments = %d'
+                                % (which, [x[0] for x in m], len(m), cfg['cap'])))
+        # maximality (C06_greedy), evaluated without cap (no overflow fragments to account for)
+        if cfg['cap'] is None:
+            norm = [[frags[x[0]] for x in m] for over, m in cm if all(frags[x[0]]['valid'] for x in m)]
+            bykey = {}
+            for fs in norm:
+                bykey.setdefault((fs[0]['strand'], str(fs[0]['contig']), str(fs[0]['sample'])) if cfg['cls'] else (), []).append(fs)
+            for grp in bykey.values():
+                for i in range(len(grp)):
+                    for j in range(i + 1, len(grp)):
+                        a, b = grp[i], grp[j]
+                        sep = any(not py_accepts(cfg, b[0], a[:k]) for k in range(1, len(a) + 1)) or \
+                            any(not py_accepts(cfg, a[0], b[:k]) for k in range(1, len(b) + 1))
+                        if not sep:
+                            out.append(('greedy', '%s: molecules %r and %r were split although each would have accepted the first '
+                                        'fragment of the other at every moment (UMIs %r / %r, sites %r / %r, distance %d, radius %d)'
+                                        % (which, [g['name'] for g in a], [g['name'] for g in b], [g['umi'] for g in a],
+                                           [g['umi'] for g in b], [g['site'] for g in a], [g['site'] for g in b], cfg['d'], cfg['r'])))
         if tf_total != valid_total and not out:
             out.append(('tags:TF_total', '%s: TF summed over the molecules = %d, valid fragments = %d' % (which, tf_total, valid_total)))
         # exactness (C06_exact): d = 0, exact site classes, no cap
@@ -356,6 +409,20 @@ def spec_violations(lib, res):
                 diff = [g for g in got if g not in exp][:3]
                 out.append(('exact', '%s: with distance 0 the molecules are not the classes of identical (cell, strand, contig, site, UMI); '
                             'molecules that are no class: %r' % (which, diff)))
+        # exactness with a cap (C06_exact_cap): first k of every class = the molecule, TF = class size
+        if cfg['d'] == 0 and cfg['cap'] is not None and cfg['cap'] >= 1 and (cfg['cls'] == 1 or (cfg['cls'] == 2 and cfg['r'] == 0)):
+            cl = {}
+            for f in res['frags']:
+                if f['valid']:
+                    cl.setdefault((str(f['sample']), f['strand'], str(f['contig']), f['site'], f['umi']), []).append(f['name'])
+            bymol = {tuple(x[0] for x in m[1]): m for m in cm}
+            for v in cl.values():
+                m = bymol.get(tuple(v[:cfg['cap']]))
+                if m is None or m[1][0][4] != len(v):
+                    out.append(('exact_cap', '%s: class %r (cap %d): expected molecule %r with TF %d, found %r'
+                                % (which, v, cfg['cap'], v[:cfg['cap']], len(v), m)))
+                elif cfg['yover'] and any((x,) not in bymol for x in v[cfg['cap']:]):
+                    out.append(('exact_cap', '%s: class %r (cap %d): the fragments beyond the cap are not singleton molecules' % (which, v, cfg['cap'])))
     if res.get('pass2') is not None and canon_impl_mols(res['pass2']) != canon_impl_mols(res['pass1']):
         a, b = canon_impl_mols(res['pass1']), canon_impl_mols(res['pass2'])
         d = [(x, y) for x, y in zip(a, b) if x != y][:2]
@@ -395,9 +462,9 @@ class Prop(fw.PropBase):
     def libraries(self):
         quick = self.tier == 'quick'
         libs = self.corpus_libs()
-        for _ in range(140 if quick else 1500):
+        for _ in range(400 if quick else 5000):
             libs.append(gen_lib(self.rng, big=False))
-        for _ in range(8 if quick else 150):
+        for _ in range(20 if quick else 500):
             libs.append(gen_lib(self.rng, big=True))
         if not quick:
             for lib in libs[::5]:
@@ -481,8 +548,18 @@ class Prop(fw.PropBase):
             'exhaustive_scopes': 'all fragment-type sequences of length <= %d (NLA alphabet 6) / <= %d (CHIC alphabet 8, plain alphabet 6)'
                                  % ((4, 3) if self.tier == 'quick' else (5, 4)),
         })
-        # hash consistency: implementation match_hash equal <=> model key equal (checked with the model's key below)
+        # the theorem statements (python transcription) evaluated on the implementation's output, every library
+        self.spec_viol = []
+        for i, (l, r) in enumerate(zip(libs, res)):
+            v = spec_violations(l, r)
+            if v:
+                self.spec_viol.append((i, v))
+        cov['spec_evaluations'] = len(libs)
+        cov['spec_violations'] = len(self.spec_viol)
         if not self.model_ok:
+            if self.spec_viol:
+                raise fw.Broken('specification', 'the implementation violates the stated theorems on %d libraries; first: %s'
+                                % (len(self.spec_viol), self.spec_viol[0][1][0][1]))
             return
         inputs, idx = [], []
         for i, (l, r) in enumerate(zip(libs, res)):
@@ -550,6 +627,9 @@ class Prop(fw.PropBase):
         cov['vm_compute_crosscheck'] = {'cases': len(small), 'mismatches': nm}
         if not ok:
             raise fw.Broken('extraction', 'vm_compute and extracted model disagree: ' + log[-800:])
+        if self.spec_viol and not dis:
+            raise fw.Broken('specification', 'the implementation violates the stated theorems on %d libraries; first: %s'
+                            % (len(self.spec_viol), self.spec_viol[0][1][0][1]))
         if dis:
             self.dis = dis
             d0 = dis[0]
@@ -573,7 +653,7 @@ class Prop(fw.PropBase):
                                    'input': {'cfg': lib['cfg'], 'reads': lib['reads'], 'retag': lib.get('retag', False)},
                                    'expected': 'see Props/C06.v: ' + {'tags': 'C06_one_primary', 'sound': 'C06_sound', 'exact': 'C06_exact',
                                                                        'partition': 'C06_partition', 'retag': 'C06_retag_idempotent',
-                                                                       'error': 'C06_run_total'}.get(key.split(':')[0], 'C06')})
+                                                                       'error': 'C06_run_total', 'cap': 'C06_cap', 'greedy': 'C06_greedy', 'exact_cap': 'C06_exact_cap'}.get(key.split(':')[0], 'C06')})
 
     def shrink(self, lib, key, text):
         """delta debugging on the read list, batches of candidates through the real implementation"""
